@@ -36,6 +36,10 @@ type c05Scenario struct {
 	// the client starts untracked, sees a few lines that mean nothing to a tracker (a stranger's NICK, a
 	// message), and only then has state tracking switched on - on the live connection, on no channel yet
 	LateTracking bool `json:"late_tracking"`
+	// OldTimes: every line carries a server-time tag from years ago (replayed history, a bouncer's backlog)
+	OldTimes bool `json:"old_times"`
+	// TimeoutMS: Config().Timeout lowered on the live client (0: default)
+	TimeoutMS int `json:"timeout_ms"`
 }
 
 var c05Verbs = []string{"JOIN", "PART", "KICK", "QUIT", "NICK", "MODE", "TOPIC", "353", "352", "324", "332", "366", "315", "329", "333"}
@@ -206,10 +210,19 @@ func runC05(sc *c05Scenario) (nontrivial bool, v *Violation) {
 		}
 		tc.C.EnableStateTracking()
 	}
+	tagsOf := func(k int) string {
+		if sc.OldTimes {
+			return "@n=" + strconv.Itoa(k) + ";time=2011-10-19T16:40:51.620Z "
+		}
+		return "@n=" + strconv.Itoa(k) + " "
+	}
+	if sc.TimeoutMS > 0 {
+		tc.C.Config().Timeout = time.Duration(sc.TimeoutMS) * time.Millisecond
+	}
 	if sc.Burst {
 		var b strings.Builder
 		for k, l := range lines {
-			b.WriteString("@n=" + strconv.Itoa(k) + " " + l + "\r\n")
+			b.WriteString(tagsOf(k) + l + "\r\n")
 		}
 		conn.Send(b.String())
 		if sc.ReconnectAfterUS > 0 {
@@ -233,7 +246,7 @@ func runC05(sc *c05Scenario) (nontrivial bool, v *Violation) {
 		}
 	} else {
 		for k, l := range lines {
-			conn.SendLine("@n=" + strconv.Itoa(k) + " " + l)
+			conn.SendLine(tagsOf(k) + l)
 			if !tc.syncIn(stallTimeout()) {
 				return false, violationf("C05", "lock-step: marker after line %d never delivered", k)
 			}
@@ -299,15 +312,17 @@ func TestC05(t *testing.T) {
 	rapid.Check(t, func(t *rapid.T) {
 		sc := &c05Scenario{Net: *genC13(t), Burst: rapid.Bool().Draw(t, "burst"), NFG: rapid.IntRange(1, 3).Draw(t, "nfg"), NBG: rapid.IntRange(0, 2).Draw(t, "nbg")}
 		sc.LateTracking = rapid.IntRange(0, 3).Draw(t, "late_tracking") == 0
+		sc.OldTimes = rapid.IntRange(0, 3).Draw(t, "old_times") == 0
+		sc.TimeoutMS = rapid.SampledFrom([]int{0, 0, 1}).Draw(t, "timeout_ms")
 		if sc.Burst && rapid.IntRange(0, 2).Draw(t, "reconnect") == 1 {
 			sc.ReconnectAfterUS = rapid.SampledFrom([]int{1, 50, 300, 1000, 3000}).Draw(t, "reconnect_after_us")
 		}
 		for k := rapid.IntRange(1, 4).Draw(t, "ndelays"); k > 0; k-- {
-			sc.Delays = append(sc.Delays, rapid.SampledFrom([]int{0, 0, 20, 100, 400}).Draw(t, "delay"))
+			sc.Delays = append(sc.Delays, rapid.SampledFrom([]int{0, 0, 20, 100, 400, 0, 20, 100, 400, 2500}).Draw(t, "delay"))
 		}
 		nt, v := runC05(sc)
 		b, _ := json.Marshal(sc)
-		col.Case(string(b), nt, fmt.Sprintf("burst=%v", sc.Burst), fmt.Sprintf("nbg=%d", sc.NBG), fmt.Sprintf("reconnect_during_burst=%v", sc.ReconnectAfterUS > 0), fmt.Sprintf("late_tracking=%v", sc.LateTracking))
+		col.Case(string(b), nt, fmt.Sprintf("burst=%v", sc.Burst), fmt.Sprintf("nbg=%d", sc.NBG), fmt.Sprintf("reconnect_during_burst=%v", sc.ReconnectAfterUS > 0), fmt.Sprintf("late_tracking=%v", sc.LateTracking), fmt.Sprintf("old_server_times=%v", sc.OldTimes), fmt.Sprintf("lowered_timeout=%v", sc.TimeoutMS > 0))
 		if len(sc.Net.Events) <= 10 {
 			col.Sample(sc)
 		}
